@@ -82,7 +82,7 @@ def run(ctx):
     # a contract-side body offset that no longer depends on the signature count alone: look for the VAA shape on which it disagrees with Go
     st = ctx.cov.get("extractors", {}).get("ral_parsevaa")
     if isinstance(st, str) and "body slice starts at" in st:
-        import re, os
+        import os
         try:
             src = open(os.path.join(core.REPO, "alephium/contracts/governance.ral")).read()
             m = re.search(r'let body = byteVecSlice!\(data, ([^,]+), size!\(data\)\)', src)
